@@ -260,7 +260,7 @@ func createPartition(stopTimes []StopTime, updates []gtfs.StopTimeUpdate) partit
 	}
 	var p partition
 
-	firstUpdatedStopID := *updates[0].StopID
+	firstUpdatedStopID := stopIDOrEmpty(&updates[0])
 	firstUpdatedStopTimeIndex := 0
 	for i, stopTime := range stopTimes {
 		if stopTime.StopID == firstUpdatedStopID {
@@ -277,7 +277,7 @@ func createPartition(stopTimes []StopTime, updates []gtfs.StopTimeUpdate) partit
 		}
 		stopTime := &stopTimes[firstUpdatedStopTimeIndex+i]
 		update := &updates[updateIndex]
-		if stopTime.StopID != *update.StopID {
+		if stopTime.StopID != stopIDOrEmpty(update) {
 			break
 		}
 		p.updated = append(p.updated, updated{
@@ -292,8 +292,16 @@ func createPartition(stopTimes []StopTime, updates []gtfs.StopTimeUpdate) partit
 	return p
 }
 
+// stopIDOrEmpty returns the stop ID of the update, or the empty string if it has none.
+func stopIDOrEmpty(stopTimeUpdate *gtfs.StopTimeUpdate) string {
+	if stopTimeUpdate.StopID == nil {
+		return ""
+	}
+	return *stopTimeUpdate.StopID
+}
+
 func (stopTime *StopTime) update(stopTimeUpdate *gtfs.StopTimeUpdate, feedCreatedAt time.Time) {
-	stopTime.StopID = *stopTimeUpdate.StopID
+	stopTime.StopID = stopIDOrEmpty(stopTimeUpdate)
 	stopTime.ArrivalTime = stopTimeUpdate.GetArrival().Time
 	stopTime.DepartureTime = stopTimeUpdate.GetDeparture().Time
 	stopTime.Track = stopTimeUpdate.NyctTrack
